@@ -142,7 +142,7 @@ class DetachedServer(ServerBase):
 
             elif msg == RuntimeMessage.CANCEL:
                 request = cast(uuid.UUID, payload)
-                self.handle_cancel_comp_task(request)
+                self.handle_cancel_comp_task(request, conn)
 
             else:
                 raise RuntimeError(f'Unexpected message type: {msg.name}')
@@ -330,24 +330,42 @@ class DetachedServer(ServerBase):
         s = CompilationStatus.DONE if box.ready else CompilationStatus.RUNNING
         self.outgoing.put((conn, RuntimeMessage.STATUS, s))
 
-    def handle_cancel_comp_task(self, request: uuid.UUID) -> None:
-        """Cancel a compilation task in the system."""
+    def handle_cancel_comp_task(
+        self,
+        request: uuid.UUID,
+        requester: Connection | None = None,
+    ) -> None:
+        """
+        Cancel a compilation task in the system.
+
+        If `requester` is given, it is the client asking for the cancel: it
+        is always acknowledged, and it can only cancel its own tasks.
+        """
         _logger.info(f'Cancelling: {request}.')
 
-        # Remove task from server data
-        mailbox_id, client_conn = self.tasks[request]
-        self.mailboxes.pop(mailbox_id)
-        if client_conn in self.clients:
-            self.clients[client_conn].remove(request)
+        entry = self.tasks.get(request)
+        if entry is not None and requester not in (None, entry[1]):
+            entry = None  # Clients can only cancel their own tasks
 
-        # Forward internal cancel messages
-        addr = RuntimeAddress(-1, mailbox_id, 0)
-        self.broadcast(RuntimeMessage.CANCEL, addr)
+        if entry is not None:
+            mailbox_id, client_conn = entry
+            if requester is None:
+                requester = client_conn
+
+            # Only tasks that have not been fetched or cancelled have a box
+            if self.mailboxes.pop(mailbox_id, None) is not None:
+                # Remove task from server data
+                if client_conn in self.clients:
+                    self.clients[client_conn].discard(request)
+
+                # Forward internal cancel messages
+                addr = RuntimeAddress(-1, mailbox_id, 0)
+                self.broadcast(RuntimeMessage.CANCEL, addr)
 
         # Acknowledge the client's cancel request
-        if not client_conn.closed:
+        if requester is not None and not requester.closed:
             # Check if it closed first since the client may have disconnected
-            self.outgoing.put((client_conn, RuntimeMessage.CANCEL, None))
+            self.outgoing.put((requester, RuntimeMessage.CANCEL, None))
 
     def handle_result(self, result: RuntimeResult) -> None:
         """Either store the result here or ship it to the destination worker."""
